@@ -238,6 +238,61 @@ class Ctx:
         if not cond:
             raise Violation(what, **details)
 
+    def thread_agreement(self, thunks, what, threads=4, rounds=3):
+        """thunks: zero-argument callables, each a pure library call on its own private arguments.  Their results in a
+        plain sequential run are the reference; the same calls made at the same time from several threads of this
+        process must return bit-identical results (a module-level work array or memo shared between calls does not)."""
+        import sys
+        import threading
+
+        def snap(r):
+            items = list(r) if isinstance(r, (tuple, list)) else [r]
+            return [np.array(x, copy=True) if isinstance(x, np.ndarray) else x for x in items]
+
+        def same(a, b):
+            if len(a) != len(b):
+                return False
+            for x, y in zip(a, b):
+                if isinstance(x, np.ndarray) or isinstance(y, np.ndarray):
+                    if not (isinstance(x, np.ndarray) and isinstance(y, np.ndarray) and x.shape == y.shape and x.dtype == y.dtype and np.array_equal(x, y, equal_nan=x.dtype.kind in "fc")):
+                        return False
+                elif not (x == y or (x != x and y != y)):
+                    return False
+            return True
+        ref = [snap(t()) for t in thunks]
+        again = [snap(t()) for t in thunks]
+        for i, (a, b) in enumerate(zip(ref, again)):
+            if not same(a, b):
+                raise Violation("%s: call %d repeated sequentially with equal arguments gives a different result" % (what, i))
+        bad, errs = [], []
+        barrier = threading.Barrier(threads)
+
+        def worker(k):
+            try:
+                barrier.wait(timeout=60)
+                for r in range(rounds):
+                    for j in range(len(thunks)):
+                        i = (j + k * max(1, len(thunks) // threads)) % len(thunks)
+                        if not same(snap(thunks[i]()), ref[i]):
+                            bad.append((k, r, i))
+            except BaseException as e:      # noqa: B902
+                errs.append(e)
+        old = sys.getswitchinterval()
+        sys.setswitchinterval(1e-6)
+        try:
+            ts = [threading.Thread(target=worker, args=(k,)) for k in range(threads)]
+            for t in ts:
+                t.start()
+            for t in ts:
+                t.join(600)
+        finally:
+            sys.setswitchinterval(old)
+        if errs:
+            raise errs[0]
+        if bad:
+            raise Violation("%s: %d of %d calls made concurrently from %d threads return something else than the same calls made one after the other (first: call %d in thread %d) - state is shared between calls" % (
+                what, len(bad), threads * rounds * len(thunks), threads, bad[0][2], bad[0][0]))
+
     def fresh_result(self, call, first, what):
         """`first` is what `call()` returned (arrays, or a tuple/list of arrays).  The caller owns it: overwrite every
         writable array in it, call again with equal arguments, and the second result must equal the first as it was
